@@ -415,6 +415,12 @@ pub fn main(opts: &Opts) {
     let scenes: Vec<u64> = opts.str("scenes", "0,7").split(',').map(|x| x.parse().unwrap()).collect();
     let nobj = opts.usize("objects", 3);
     let calls = history(seed, steps, &scenes, nobj, opts.get("rotated").is_some(), opts.get("no-lifecycle").is_none(), opts.f64("spread", 160.0) as f32, opts.get("crafted").is_some(), opts.f64("jump", 0.0) as f32);
+    let mut calls = calls;
+    if let Some(ps) = opts.get("pre-skip") {
+        // "scene:n": the scene is skipped ahead by n epochs before anything else happens (one scene far ahead of the others)
+        let (sc, n) = ps.split_once(':').expect("scene:n");
+        calls.insert(0, Call::Skip(sc.parse().unwrap(), n.parse().unwrap()));
+    }
     let only = opts.get("only-scene").map(|s| s.parse::<u64>().unwrap());
     let delay_ctl = if opts.u64("delay-us", 0) > 0 {
         let c = crate::gates::Ctl::install();
